@@ -1,10 +1,12 @@
 package main
 
 import (
+	"encoding/base64"
 	"fmt"
 	"math/rand"
+	"path/filepath"
 	"strconv"
-
+	"time"
 )
 
 func init() {
@@ -26,6 +28,8 @@ func alphabet(tok bool) []symbol {
 	return []symbol{
 		{"HS", func(e *l1env, dialOK bool) []byte { return packet(ptHandshake, handshakeBody(1, 0, 0, ext)) }},
 		{"HSbad", func(e *l1env, dialOK bool) []byte { return packet(ptHandshake, handshakeBody(1, 0, 0, 4)) }},
+		// smart-card bit only: succeeds where smart-card authentication is enabled, and must not relax the cookie check
+		{"HSsc", func(e *l1env, dialOK bool) []byte { return packet(ptHandshake, handshakeBody(1, 0, 0, 1)) }},
 		{"TC", func(e *l1env, dialOK bool) []byte { return packet(ptTunnelCreate, tunnelCreateBody(0, "", false)) }},
 		{"TCc", func(e *l1env, dialOK bool) []byte { return packet(ptTunnelCreate, tunnelCreateBody(0, "tok", true)) }},
 		{"TA", func(e *l1env, dialOK bool) []byte { return packet(ptTunnelAuth, tunnelAuthBody("pc")) }},
@@ -68,7 +72,7 @@ func streamC01(env *runEnv) {
 		contLen = 3
 	}
 	// (a) exhaustive small scope: every valid prefix followed by every
-	// continuation of length <= contLen over the 11-symbol alphabet
+	// continuation of length <= contLen over the 12-symbol alphabet
 	for ci, cfg := range cfgs {
 		al := alphabet(cfg.token)
 		idx := map[string]int{}
@@ -225,4 +229,93 @@ func mutatedExchange(r *rand.Rand, e *l1env, cfg procCfg) []item {
 // streamReplay re-runs the case lines of a replay file through the real code.
 func streamReplay(env *runEnv) {
 	replayLines(env)
+}
+
+// ---------------------------------------------------------------- L3: wiring of the callbacks in main()
+//
+// The real binary with Basic authentication (fake authentication service) over TLS,
+// token authentication on (the default) and off: which checks guard the tunnel is
+// decided in main(), not in the packet loop. No OpenID provider is configured, so no
+// cookie can be a minted one: every presented cookie must be refused under token
+// authentication. Compared with the processor model under Processor.wired.
+func init() { streams["c01l3"] = streamC01L3 }
+
+func streamC01L3(env *runEnv) {
+	if rdpgwBinary == "" {
+		return
+	}
+	users := map[string]string{"1": "pw1"}
+	basic := "Basic " + base64.StdEncoding.EncodeToString([]byte("1:pw1"))
+	for ci, tok := range []bool{true, false} {
+		dir := filepath.Join(env.workdir, fmt.Sprintf("c01l3-%d", ci))
+		mkdirAll(dir)
+		sock := filepath.Join(dir, "a.sock")
+		b := newTagBackend([]byte("<host-says-hello>"))
+		other := newTagBackend([]byte("<other-host>"))
+		gc := gwConfig{authSet: true, auth: []string{"local"}, hosts: []string{b.addr}, hostSelection: "roundrobin",
+			authSocket: sock, tokenAuth: bp(tok)}
+		gc.certFile, gc.keyFile = selfSigned(dir)
+		fa := newFakeAuth(sock, users)
+		yaml, ev := gc.render("file")
+		g, ok := startGateway(dir, yaml, ev, true)
+		if !ok {
+			panic("C01 L3: gateway did not start: " + g.logs())
+		}
+		host, port := splitHostPort(b.addr)
+		oh, op := splitHostPort(other.addr)
+		ext := 0
+		if tok {
+			ext = 2
+		}
+		type sc struct {
+			name string
+			pk   [][]byte
+		}
+		full := func(cookie string, withCookie bool, h string, p int) [][]byte {
+			return [][]byte{
+				packet(ptHandshake, handshakeBody(1, 0, 0, ext)),
+				packet(ptTunnelCreate, tunnelCreateBody(0, cookie, withCookie)),
+				packet(ptTunnelAuth, tunnelAuthBody("pc")),
+				packet(ptChannelCreate, channelCreateBody(h, p)),
+				packet(ptData, dataBody([]byte("client-bytes"))),
+				packet(ptCloseChannel, nil),
+			}
+		}
+		scripts := []sc{
+			{"garbage-cookie", full("this-is-not-a-token", true, host, port)},
+			{"empty-cookie", full("", true, host, port)},
+			{"no-cookie", full("", false, host, port)},
+			{"unsigned-jwt", full("eyJhbGciOiJub25lIn0.eyJpc3MiOiJyZHBndyJ9.", true, host, port)},
+			{"other-host", full("x", true, oh, op)},
+			{"skip-tunnel-create", full("x", true, host, port)[:1]},
+		}
+		scripts[5].pk = append(scripts[5].pk, packet(ptTunnelAuth, tunnelAuthBody("pc")), packet(ptChannelCreate, channelCreateBody(host, port)))
+		for si, s := range scripts {
+			for _, tr := range []string{"ws", "legacy"} {
+				a0, _, _ := b.snapshot()
+				o0, _, _ := other.snapshot()
+				res := runTunnel(g, tunnelScript{transport: tr, id: fmt.Sprintf("{c01l3-%d-%d-%s}", ci, si, tr), packets: s.pk, auth: basic})
+				time.Sleep(50 * time.Millisecond)
+				a1, _, _ := b.snapshot()
+				o1, _, _ := other.snapshot()
+				obs := "ERR:" + res.err
+				if res.err == "" {
+					obs = fmt.Sprintf("R=%s D=%d O=%d X=%s", respTokens(res.responses), a1-a0, o1-o0, b01(res.closed))
+				}
+				var items []item
+				for _, p := range s.pk {
+					items = append(items, item{data: p, ans: [4]bool{false, true, true, true}})
+				}
+				env.count("c01l3." + s.name)
+				env.emit("wiring", b01(tok), hx([]byte(b.addr)), hx([]byte("1")), itemsString(items), obs)
+			}
+		}
+		if !g.alive() {
+			env.emit("alive", "c01l3-gateway", "process-exited")
+		}
+		g.stop()
+		fa.stop()
+		b.close()
+		other.close()
+	}
 }
